@@ -6,43 +6,43 @@ ENV = "export GOFLAGS=-mod=mod GOPROXY=off GOSUMDB=off GOTOOLCHAIN=local GOWORK=
 checks = {
  "C01": ("verifier", "must-pass-through (dominator/CFG) + backward dependency slice + length-guard dominance over SSA of the 7 Groth16 Verify functions", "3.1, 4/C01"),
  "C02": ("verifier", "must-pass-through + dependency slice + length-guard dominance over SSA of the 7 PLONK Verify functions", "3.1, 4/C02"),
- "C08": ("verifier", "length-guard dominance (V-GUARD) and error discipline over SSA of both verifiers x 7 curves", "3.1, 4/C08"),
+ "C08": ("verifier", "length-guard dominance (V-GUARD) and error discipline over SSA of both verifiers x 7 curves; forward taint of decoded header counts to index/slice bounds (V-HDR-BOUND); grown-slice roots", "3.1, 4/C08"),
  "C18": ("verifier", "must-pass-through + argument-provenance slice over SSA of Phase1/Phase2.Verify x 7 curves", "3.1, 4/C18"),
  "C03": ("conc", "channel-protocol rules (select/ctx pairing, single close on success paths, acyclic wait-for graph, signal on every exit) over SSA/CFG of the 14 provers + error discipline + sibling agreement", "3.6, 4/C03"),
- "C10": ("effects", "effect analysis over the restricted call graph (no store into shared system/key/blueprint objects from Solve/Prove/Verify), option-slice aliasing, reset-before-run ordering, lock discipline", "3.5, 4/C10"),
+ "C10": ("effects", "effect analysis over the restricted call graph (no store into shared system/key/blueprint objects from Solve/Prove/Verify), option-slice aliasing, reset-before-run ordering, lock discipline; pooled-object ownership (POOL-UAF: no use after release, no escape), double-checked-locking pre-checks (EFF-DCL), typestate of caller-supplied hashers (HASH-CLEAN / HASH-FRESH), prover/verifier hash-to-field agreement", "3.5, 4/C10"),
  "C04": ("coeffid", "symbolic interpretation (polynomial effects) of every special-coefficient switch on the syntax tree + coefficient-table slot checks", "3.4, 4/C04"),
- "C05": ("flow", "interprocedural value-flow (per-function summaries over SSA, field-based heap): every hint output / internal wire of the builders reaches a constraint; operands of API operations reach their reviewed sinks", "3.8, 4/C05"),
- "C12": ("flow", "interprocedural value-flow: emulated-arithmetic hint outputs reach width enforcement, the deferred identity check and the commitment", "3.8, 4/C12"),
- "C13": ("flow", "interprocedural value-flow: limb / multiplicity / lookup-result wires reach the log-derivative equality and the commitment", "3.8, 4/C13"),
- "C14": ("flow", "interprocedural value-flow: indicator / mask / partition / byte hint outputs reach their reviewed assertions", "3.8, 4/C14"),
- "C16": ("flow", "interprocedural value-flow: curve, pairing and tower-field hint outputs and gadget operands reach assertions", "3.8, 4/C16"),
- "C17": ("flow", "interprocedural value-flow: every field of the inner proof / verifying key / witness operands of the in-circuit verifiers reaches its reviewed assertion sinks", "3.8, 4/C17"),
- "C19": ("flow", "interprocedural value-flow: GKR solving / proving hint outputs and verifier operands reach the in-circuit verifier's assertions", "3.8, 4/C19"),
- "C06": ("gate", "symbolic interpretation of the sparse-gate blueprints (assigned wire makes the gate polynomial vanish as a rational function), coefficient fast-path equivalence, must-pass rules on solveR1C / run, sibling agreement", "3.3, 3.4, 4/C06"),
+ "C05": ("flow", "interprocedural value-flow (per-function summaries over SSA, field-based heap): every hint output / internal wire of the builders reaches a constraint; operands of API operations reach their reviewed sinks; per-function constraint-path counts (FLOW-FN), reviewed users of constraint-relaxing options (OPT-RELAX), provably empty copy destinations (COPY-NOOP), hash typestate (HASH-KILL)", "3.8, 4/C05"),
+ "C12": ("flow", "interprocedural value-flow: emulated-arithmetic hint outputs reach width enforcement, the deferred identity check and the commitment; per-piece width constraint of hint results (EMU-WIDTH), trust-flag discipline (EMU-FLAG), reviewed users of constraint-relaxing options (OPT-RELAX), per-function constraint-path counts (FLOW-FN)", "3.8, 4/C12"),
+ "C13": ("flow", "interprocedural value-flow: limb / multiplicity / lookup-result wires reach the log-derivative equality and the commitment; per-function constraint-path counts (FLOW-FN), reviewed users of constraint-relaxing options (OPT-RELAX), provably empty copy destinations (COPY-NOOP), hash typestate (HASH-KILL)", "3.8, 4/C13"),
+ "C14": ("flow", "interprocedural value-flow: indicator / mask / partition / byte hint outputs reach their reviewed assertions; per-function constraint-path counts (FLOW-FN), reviewed users of constraint-relaxing options (OPT-RELAX), provably empty copy destinations (COPY-NOOP), hash typestate (HASH-KILL)", "3.8, 4/C14"),
+ "C16": ("flow", "interprocedural value-flow: curve, pairing and tower-field hint outputs and gadget operands reach assertions; per-function constraint-path counts (FLOW-FN), reviewed users of constraint-relaxing options (OPT-RELAX), provably empty copy destinations (COPY-NOOP), hash typestate (HASH-KILL)", "3.8, 4/C16"),
+ "C17": ("flow", "interprocedural value-flow: every field of the inner proof / verifying key / witness operands of the in-circuit verifiers reaches its reviewed assertion sinks; per-function constraint-path counts (FLOW-FN), reviewed users of constraint-relaxing options (OPT-RELAX), provably empty copy destinations (COPY-NOOP), hash typestate (HASH-KILL)", "3.8, 4/C17"),
+ "C19": ("flow", "interprocedural value-flow: GKR solving / proving hint outputs and verifier operands reach the in-circuit verifier's assertions; per-function constraint-path counts (FLOW-FN), reviewed users of constraint-relaxing options (OPT-RELAX), provably empty copy destinations (COPY-NOOP), hash typestate (HASH-KILL)", "3.8, 4/C19"),
+ "C06": ("gate", "symbolic interpretation of the sparse-gate blueprints (assigned wire makes the gate polynomial vanish as a rational function), coefficient fast-path equivalence, must-pass rules on solveR1C / run, sibling agreement; definite assignment of the reused decoder scratch (OUT-DEF), reset-before-run ordering (EFF-RESET)", "3.3, 3.4, 4/C06"),
  "C09": ("codec", "writer/reader item-sequence agreement extracted from SSA, struct-field coverage of encoders, must-pass of Precompute on decode, gate calldata codec agreement, sibling agreement", "3.3, 4/C09"),
- "C07": ("walk", "schema-walk ordering (public pass before secret pass through one walker), visibility-conflict test ordering, witness accessor purity (no receiver writes), witness codec sequence and vector type-switch exhaustiveness", "3.10, 4/C07"),
- "C20": ("randflow", "provenance of blinding: flow-insensitive backward slices from each blinded proof element to SetRandom receivers (element-wise model of batch scalar multiplication), in-place randomiser writes, must-pass of the commitment mask hint, sibling agreement", "3.9, 4/C20"),
- "C11": ("determinism", "map-iteration order-sensitivity classification + package-level state and nondeterminism-source reachability over the compile-time call graph", "3.7, 4/C11"),
+ "C07": ("walk", "schema-walk ordering (public pass before secret pass through one walker), visibility-conflict test ordering, witness accessor purity (no receiver writes), witness codec sequence and vector type-switch exhaustiveness; purity of the shared schema.Schema object", "3.10, 4/C07"),
+ "C20": ("randflow", "provenance of blinding: flow-insensitive backward slices from each blinded proof element to SetRandom receivers (element-wise model of batch scalar multiplication), in-place randomiser writes, must-pass of the commitment mask hint, sibling agreement; dominance of every Groth16 draw over every successful return", "3.9, 4/C20"),
+ "C11": ("determinism", "map-iteration order-sensitivity classification + package-level state and nondeterminism-source reachability over the compile-time call graph; pooled-buffer ownership (POOL-UAF) and cached-state reset pairing (STATE-RESET) in compile-time code", "3.7, 4/C11"),
 }
 texts = {
  "C01": "Decides structural necessary conditions of Groth16 verifier soundness on every path of the current source: each reviewed check is on every accepting path with the reviewed argument provenance, every proof field is consumed by a check, every proof-supplied list is length-fixed against the key, no error is dropped. It does not decide the algebra (that the checked equation is the right one).",
  "C02": "Same for the PLONK verifier: subgroup checks of every proof point, Fiat-Shamir bindings, algebraic relation, linearised digest MSM, KZG fold and batch verification are must-pass with reviewed provenance; proof fields covered; lists length-fixed.",
- "C08": "Decides that every index/slice of a proof- or witness-supplied slice in the verifiers is dominated by an error-returning length check, and that wrong list lengths are rejected on all accepting paths. Does not decide panics inside gnark-crypto.",
+ "C08": "Decides that every index/slice of a proof- or witness-supplied slice in the verifiers is dominated by an error-returning length check, and that wrong list lengths are rejected on all accepting paths. Does not decide panics inside gnark-crypto. Also decides that counts decoded from the witness header never bound an index or slice expression without a dominating comparison with the payload length.",
  "C04": "Narrow: decides that every special-coefficient fast path (solver, Groth16 setup, MPC phase 2) equals the table path for the value its id stands for, and that the coefficient tables hold those values. Does not decide constant folding / merging / splitting / compression semantics.",
  "C05": "Decides that no hint output or internal wire of the builders and bit-decomposition gadgets is left unconstrained, and that each operand of each API operation still reaches the reviewed constraint sites (kind, strength, number of sites). Does not decide that the emitted constraints are sufficient.",
- "C12": "Decides that every emulated-arithmetic hint output reaches limb-width enforcement, the deferred multiplication check and the commitment. Does not decide overflow bookkeeping or integer semantics.",
+ "C12": "Decides that every emulated-arithmetic hint output reaches limb-width enforcement, the deferred multiplication check and the commitment. Does not decide overflow bookkeeping or integer semantics. Also decides that every limb group sliced out of a hint result is itself range-checked (reports the unconstrained carry limbs of mulHint / polyMvHint as known finding F6) and that the trust flag modReduced is only set behind the comparison with the modulus.",
  "C13": "Decides that every limb, multiplicity and lookup-result wire reaches the log-derivative equality and the commitment. Does not decide the algebra of the argument nor which limbs are looked up.",
  "C14": "Decides that every indicator / mask / partition / byte hint output reaches its reviewed assertions and that gadget operands reach theirs. Does not decide exact arithmetic semantics or thresholds.",
  "C16": "Decides that every decomposition / point / line / inverse / residue hint output of the curve and pairing gadgets, and every gadget operand, reaches the reviewed assertions. Does not decide formula correctness or exceptional cases.",
  "C17": "Decides that every field of the inner proof, key and witness handed to the in-circuit verifiers reaches the reviewed assertion sinks (field-level coverage with site counts). Does not decide accept-set equality with the native verifiers.",
  "C19": "Decides that the GKR hint outputs and the operands of the in-circuit GKR verifier reach the verifier's assertions and the challenge commitment. Does not decide the sum-check algebra.",
- "C06": "Decides, by symbolic interpretation of the source, that every accepting path of each sparse-gate Solve assigns a value satisfying the gate identically or checks the gate, that the gate codecs agree, that the solver's special-coefficient fast paths equal the table path, that solveR1C returns nil only after comparing or computing, and that run checks that all wires are assigned. Does not decide level scheduling, hint results, or the R1C division formulas.",
+ "C06": "Decides, by symbolic interpretation of the source, that every accepting path of each sparse-gate Solve assigns a value satisfying the gate identically or checks the gate, that the gate codecs agree, that the solver's special-coefficient fast paths equal the table path, that solveR1C returns nil only after comparing or computing, and that run checks that all wires are assigned. Does not decide level scheduling, hint results, or the R1C division formulas. Also decides that every Decompress* method assigns every field of the reused scratch object on every path and that blueprint state is reset before each run.",
  "C09": "Decides that every writer and its reader encode and decode the same fields in the same order, that every struct field is encoded (or recomputed on decode), that the verifying-key decoder always recomputes its cached pairing, and that gate calldata codecs agree. Does not decide byte-level encoder behaviour, CBOR limits, or functional equivalence of decoded systems.",
  "C07": "Decides that compile and witness paths enumerate leaves through the same walker, public pass first, that the tag-conflict test is effective, that witness read accessors are pure, that the binary witness writer and reader agree and that every vector type is handled everywhere. Does not decide arbitrary struct shapes, value conversion or JSON values.",
  "C20": "Decides that each blinded proof element depends on fresh SetRandom values (Groth16: Ar and Bs on different scalars, Krs on both; PLONK: blinding polynomials, BSB22 random entries, quotient randomisers written in place) and that every Commit creates its own mask. Does not decide the quality of the randomness nor that values are not overwritten later (flow-insensitive).",
  "C03": "Decides the structural reasons why Prove terminates: no prover stage can wait forever once another failed, each stage channel is closed exactly once on the success path, the wait-for graph is acyclic, goroutines always signal, Solve errors propagate. It does not decide that honest proofs verify (algebra) nor domain sizing.",
- "C10": "Decides that nothing reachable from Solve/Prove/Verify writes memory owned by the shared compiled system, keys, blueprints or caller-owned option slices, that blueprint state is reset before each run and registries are lock-guarded. Reports the lookup-blueprint cache as a known finding. It does not decide equality of results across schedules.",
- "C11": "Decides the absence of the enumerated nondeterminism sources in compile-time code: order-sensitive effects under map iteration, package-level mutable state, clocks/randomness/goroutine order. It does not decide byte equality across processes in general.",
+ "C10": "Decides that nothing reachable from Solve/Prove/Verify writes memory owned by the shared compiled system, keys, blueprints or caller-owned option slices, that blueprint state is reset before each run and registries are lock-guarded. Reports the lookup-blueprint cache as a known finding. It does not decide equality of results across schedules. Also decides that objects handed back to shared pools are neither used afterwards nor escape, and that caller-supplied hashers are left clean.",
+ "C11": "Decides the absence of the enumerated nondeterminism sources in compile-time code: order-sensitive effects under map iteration, package-level mutable state, clocks/randomness/goroutine order. It does not decide byte equality across processes in general. Also decides that pooled compile buffers are not used after release / do not escape, and that evaluations cached on circuit elements by the emulated-arithmetic deferred checks are cleared.",
  "C18": "Decides that every accepting exit of the contribution verifiers passes every update-proof check, size guard and the same-ratio check, each tied to the previous contribution's hash and to the reviewed parameter pairs, and that every parameter vector of the contribution is consumed by a check. Does not decide the cryptography of the update proofs.",
 }
 na = {
@@ -61,7 +61,7 @@ m = {
   {"name": "gnarklint", "path": "gnarklint/", "serves_properties": sorted(checks.keys()), "kind_free_text": "custom static analyzer over go/packages + go/ssa (x/tools v0.29.0): must-pass-through, dominance, dependency slicing, value-flow, effect and determinism rules specific to gnark; reference tables under rules/"},
  ],
  "checks": [],
- "notes": "All checks are static (no code of /repo is executed). fix: commits in /repo: 675f065 (groth16 commitment count), 8bd1081 (plonk claimed values count). See DESIGN.md and known_findings.json.",
+ "notes": "All checks are static (no code of /repo is executed). fix: commits in /repo: 675f065 (groth16 commitment count), 8bd1081 (plonk claimed values count), d5689b0 (scs sorted keys), 26f7e6f (plonk solver option slice). Known findings: F4 (C10 lookup blueprint cache), F6 (C12 unconstrained emulated-multiplication carries). See DESIGN.md and known_findings.json.",
  "not_applicable": [{"property_id": k, "reason": v} for k, v in sorted(na.items()) if k not in checks],
 }
 for pid in sorted(checks):
